@@ -1054,6 +1054,7 @@ fn cmd_run(args: &[String]) -> i32 {
     let mut violations: Vec<JsonValue> = Vec::new();
     let mut samples: Vec<JsonValue> = Vec::new();
     let mut runs_done = 0u64;
+    let mut stop_after_abort = false;
     for index in start..start + count {
         let (mut sc, mut rng) = scenario_for(seed, index);
         let out = run_scenario(&sc, &mut rng);
@@ -1082,23 +1083,43 @@ fn cmd_run(args: &[String]) -> i32 {
             if *c == 1 {
                 // from here on the schedule is explicit
                 sc.schedule = Some(out.conc.effective.clone());
-                let (min_sc, evals) = minimise(&sc, &viol.class);
-                let (v1, o1) = eval(&min_sc);
+                let original_decisions = out.conc.effective.len();
+                let aborted = out.outs.iter().any(|o| matches!(o.solo, Outcome::Signal(6)) || matches!(o.conc, Outcome::Signal(6)));
+                let (mut min_sc, evals) = if aborted { (sc.clone(), 0) } else { minimise(&sc, &viol.class) };
                 let mut st1 = Stats::default();
+                let (mut v1, mut o1) = if aborted { (Some(viol.clone()), out) } else { eval(&min_sc) };
+                if !same_class(&v1, &viol.class) {
+                    min_sc = sc.clone();
+                    let r = eval(&min_sc);
+                    v1 = r.0;
+                    o1 = r.1;
+                    if v1.is_none() {
+                        v1 = Some(viol.clone());
+                    }
+                }
                 let (h1, _, _) = summarise(&min_sc, &o1, &mut st1);
-                let (v2, o2) = eval(&min_sc);
-                let (h2, _, _) = summarise(&min_sc, &o2, &mut st1);
+                let (v2, h2) = if aborted {
+                    (v1.clone(), h1)
+                } else {
+                    let (v2, o2) = eval(&min_sc);
+                    let (h2, _, _) = summarise(&min_sc, &o2, &mut st1);
+                    (v2, h2)
+                };
                 let mut fixed = min_sc.clone();
                 fixed.schedule = Some(o1.conc.effective.clone());
                 let mut rep = replay_json(&fixed, seed, index, &v1, &o1, h1);
                 rep["minimiser_evaluations"] = evals.into();
                 rep["original_executions"] = sc.execs.len().into();
-                rep["original_decisions"] = out.conc.effective.len().into();
+                rep["original_decisions"] = original_decisions.into();
                 rep["replays_identically_in_process"] = (h1 == h2 && v1.as_ref().map(|x| &x.class) == v2.as_ref().map(|x| &x.class)).into();
                 rep["history_kinds"] = JsonValue::Array(fixed.execs.iter().map(|e| format!("{}:{}", e.engine.name(), e.adds.iter().map(|a| format!("xadd{}", a.width as u32 * 8)).collect::<Vec<_>>().join("+")).into()).collect());
                 violations.push(rep);
+                if aborted {
+                    // a recovered abort() leaves the C library's abort lock taken: stop this worker
+                    stop_after_abort = true;
+                }
             }
-            if vclasses.values().sum::<u64>() >= max_violations {
+            if stop_after_abort || vclasses.values().sum::<u64>() >= max_violations {
                 break;
             }
         }
